@@ -5,7 +5,7 @@
 use crate::rt;
 use std::collections::VecDeque;
 use std::fmt;
-use std::sync::atomic::{AtomicU64, Ordering};
+use std::sync::atomic::Ordering;
 use std::sync::{Arc, Mutex as StdMutex};
 use std::time::Duration;
 
@@ -405,7 +405,7 @@ pub fn tick(d: Duration) -> Receiver<Instant> {
     let period = d.as_nanos() as u64;
     let now = Chan::<Instant>::now();
     let slot = Arc::new(rt::TimerSlot {
-        deadline: AtomicU64::new(now + period),
+        deadline: std::sync::atomic::AtomicU64::new(now + period),
         waker: StdMutex::new(None),
     });
     rt::register_timer(slot.clone());
@@ -779,6 +779,47 @@ impl AtomicBool {
     }
     #[track_caller]
     pub fn compare_exchange(&self, cur: bool, new: bool, s: Ordering, f: Ordering) -> Result<bool, bool> {
+        rt::sched_point_throttled(rt::site_hash(std::panic::Location::caller()));
+        self.0.compare_exchange(cur, new, s, f)
+    }
+}
+
+/// Counters (metrics): every access is a (throttled) scheduling point, so that a read-modify-
+/// write spelled as separate load and store can be interleaved by another task.
+#[derive(Debug, Default)]
+pub struct AtomicU64(std::sync::atomic::AtomicU64);
+
+impl AtomicU64 {
+    pub const fn new(v: u64) -> Self {
+        AtomicU64(std::sync::atomic::AtomicU64::new(v))
+    }
+    #[track_caller]
+    pub fn load(&self, o: Ordering) -> u64 {
+        rt::sched_point_throttled(rt::site_hash(std::panic::Location::caller()));
+        self.0.load(o)
+    }
+    #[track_caller]
+    pub fn store(&self, v: u64, o: Ordering) {
+        rt::sched_point_throttled(rt::site_hash(std::panic::Location::caller()));
+        self.0.store(v, o)
+    }
+    #[track_caller]
+    pub fn swap(&self, v: u64, o: Ordering) -> u64 {
+        rt::sched_point_throttled(rt::site_hash(std::panic::Location::caller()));
+        self.0.swap(v, o)
+    }
+    #[track_caller]
+    pub fn fetch_add(&self, v: u64, o: Ordering) -> u64 {
+        rt::sched_point_throttled(rt::site_hash(std::panic::Location::caller()));
+        self.0.fetch_add(v, o)
+    }
+    #[track_caller]
+    pub fn fetch_sub(&self, v: u64, o: Ordering) -> u64 {
+        rt::sched_point_throttled(rt::site_hash(std::panic::Location::caller()));
+        self.0.fetch_sub(v, o)
+    }
+    #[track_caller]
+    pub fn compare_exchange(&self, cur: u64, new: u64, s: Ordering, f: Ordering) -> Result<u64, u64> {
         rt::sched_point_throttled(rt::site_hash(std::panic::Location::caller()));
         self.0.compare_exchange(cur, new, s, f)
     }
